@@ -33,7 +33,7 @@ MANIFEST = {
                  "induction, list parsing lemmas) + model/implementation correspondence in coqc",
     "ref": "6 C16",
 }
-RULE = ("eight scenario kinds: text_content over NUL/BMP/astral/combining/boundary code points; json_content over random "
+RULE = ("nine scenario kinds: text_content over NUL/BMP/astral/combining/boundary code points; json_content over random "
         "JSON values; Content(ct, chunks) with explicit chunk lists (empty chunks, cuts inside sequences, valid and "
         "invalid UTF-8, both charsets in several spellings, no charset, non-text types); byte strings <= 8 (quick) / "
         "<= 12 (thorough) bytes under ALL 2^(n-1) cut patterns, each also with empty chunks in front/between/behind "
@@ -41,7 +41,9 @@ RULE = ("eight scenario kinds: text_content over NUL/BMP/astral/combining/bounda
         "an instrumented BytesIO and content_from_file over real temporary files (builtin open rebound in "
         "testtools.content to count reads) for lengths around multiples of chunk_size, offsets before/at/after EOF, "
         "both origins, both buffer_now values, source overwritten between creation and iteration, iterated twice; "
-        "_copy_content/gather_details snapshots of such sources; Content.__eq__ on pairs differing in type, subtype, "
+        "_copy_content/gather_details snapshots of such sources, and of details whose callback serves an in-memory "
+        "list (a generator over it / the SAME list object every call / a fresh list / a tuple) gathered through "
+        "_copy_content, gather_details or TestCase.useFixture and then mutated (append, clear, replace); Content.__eq__ on pairs differing in type, subtype, "
         "parameters (incl. order) or bytes (incl. same bytes chunked differently); content types from the wf_ct "
         "grammar and its boundary inside mime_dom. non-trivial = text with a non-ASCII code point / >= 2 chunks / "
         ">= 2 bytes under splits / non-empty source / parameters present; distinct = distinct JSON")
@@ -283,6 +285,8 @@ def drive(case):
             return {"copied": None, "same": same, "c1": c1, "c2": c2, "ra": ra, "orig": orig}
         finally:
             src.close()
+    if k == "snaplist":
+        return drive_snaplist(case)
     if k == "eq":
         ca = [bytes(x) for x in case["ca"]]
         cb = [bytes(x) for x in case["cb"]]
@@ -297,6 +301,67 @@ def drive(case):
         except Exception:      # noqa - the function raises bare Exception("Can't parse type ...")
             return {"raised": "ExceptionCantParse"}
     raise AssertionError(k)
+
+
+def drive_snaplist(case):
+    """A detail whose callback serves an in-memory list is gathered, then the list is mutated."""
+    import testtools
+    from testtools import content as C, testcase
+    buf = [bytes(c) for c in case["buf"]]
+    src = case["src"]
+    if src == "gen":                    # a generator over the mutable buffer
+        def get():
+            return (c for c in buf)
+    elif src == "same":                 # the SAME mutable list object on every call
+        def get():
+            return buf
+    elif src == "fresh":                # a fresh list each call
+        def get():
+            return list(buf)
+    else:                               # an immutable tuple made when the content is created
+        tup = tuple(buf)
+
+        def get():
+            return tup
+    c = C.Content(C.UTF8_TEXT, get)
+
+    def mutate():
+        for op in case["ops"]:
+            if op[0] == "append":
+                buf.append(bytes(op[1]))
+            elif op[0] == "clear":
+                buf.clear()
+            else:
+                buf[op[1]] = bytes(op[2])
+
+    via = case["via"]
+    if via == "copy":
+        cp = testcase._copy_content(c)
+        mutate()
+    elif via == "gather":
+        target = {}
+        testcase.gather_details({"d": c}, target)
+        cp = target["d"]
+        mutate()
+    else:                               # TestCase.useFixture: details gathered by a cleanup, then fixture.cleanUp mutates
+        import fixtures
+
+        class F(fixtures.Fixture):
+            def _setUp(self):
+                self.addDetail("d", c)
+                self.addCleanup(mutate)
+
+        class T(testtools.TestCase):
+            def test_x(self):
+                self.useFixture(F())
+        t = T("test_x")
+        t.run(testtools.TestResult())
+        cp = t.getDetails()["d"]
+    same = bool(cp.content_type == c.content_type)
+    c1 = _chunks(lambda: list(cp.iter_bytes()))
+    c2 = _chunks(lambda: list(cp.iter_bytes()))
+    orig = _chunks(lambda: list(c.iter_bytes()))
+    return {"same": same, "c1": c1, "c2": c2, "orig": orig}
 
 
 # ---------------------------------------------------------------------------
@@ -361,6 +426,19 @@ def term(case, o):
         return q.pair("(ISnap %s)" % g_reader(case),
                       "(OSnap %s %s %s %s %s %s)" % (q.option(o["copied"]), q.boolean(o["same"]), g_bres(o["c1"]),
                                                      g_bres(o["c2"]), q.boolean(o["ra"]), g_bres(o["orig"])))
+    if k == "snaplist":
+        ops = []
+        for op in case["ops"]:
+            if op[0] == "append":
+                ops.append("(LAppend %s)" % g_bytes(op[1]))
+            elif op[0] == "clear":
+                ops.append("LClear")
+            else:
+                ops.append("(LReplace %s %s)" % (q.nat(op[1]), g_bytes(op[2])))
+        i = q.record([("sl_tuple", q.boolean(case["src"] == "tuple")), ("sl_buf", g_chunks(case["buf"])),
+                      ("sl_ops", q.lst(ops))])
+        return q.pair("(ISnapList %s)" % i,
+                      "(OSnapList %s %s %s %s)" % (q.boolean(o["same"]), g_bres(o["c1"]), g_bres(o["c2"]), g_bres(o["orig"])))
     if k == "eq":
         return q.pair("(IEq %s %s %s %s)" % (g_ct(case["ta"]), g_chunks(case["ca"]), g_ct(case["tb"]),
                                              g_chunks(case["cb"])),
@@ -384,6 +462,8 @@ def perturb(case, o):
         o["rc"] = not o["rc"]
     elif k == "snap":
         o["ra"] = not o["ra"]
+    elif k == "snaplist":
+        o["same"] = not o["same"]
     elif k == "eq":
         o["eq"] = not o["eq"]
     elif k == "mime":       # compared by "did it come back": flip that
@@ -745,6 +825,29 @@ def generate(rng, tier):
         del c["buffer"]
         c["via"] = rng.choice(["copy", "gather"])
         cases.append(c)
+    # ---- snapshots of details served from in-memory lists ----
+    fixed_sl = [("same", [[1, 2], [3]], [["clear"]]), ("same", [[1]], [["append", [2]]]), ("same", [[1], [2]], [["replace", 0, [9]]]),
+                ("gen", [[1, 2], [3]], [["clear"]]), ("fresh", [[1, 2], [3]], [["clear"]]), ("tuple", [[1, 2], [3]], [["clear"]]),
+                ("same", [], [["append", [5]]]), ("same", [[]], [["clear"], ["append", [7]]])]
+    for src, buf, ops in fixed_sl:
+        for via in ("copy", "gather", "fixture"):
+            cases.append({"k": "snaplist", "src": src, "buf": buf, "ops": ops, "via": via})
+    for _ in range(300 if quick else 4000):
+        buf = [[rng.randint(0, 255) for _ in range(rng.choice([0, 1, 1, 2, 3]))] for _ in range(rng.choice([0, 1, 2, 2, 3, 4]))]
+        n = len(buf)
+        ops = []
+        for _ in range(rng.choice([1, 1, 2, 3])):
+            r = rng.random()
+            if r < 0.4:
+                ops.append(["append", [rng.randint(0, 255) for _ in range(rng.choice([0, 1, 2]))]])
+                n += 1
+            elif r < 0.65 or n == 0:
+                ops.append(["clear"])
+                n = 0
+            else:
+                ops.append(["replace", rng.randrange(n), [rng.randint(0, 255) for _ in range(rng.choice([0, 1, 2]))]])
+        cases.append({"k": "snaplist", "src": rng.choice(["gen", "same", "same", "fresh", "tuple"]), "buf": buf, "ops": ops,
+                      "via": rng.choice(["copy", "gather", "fixture"])})
     # ---- __eq__ ----
     chunkings = [[], [[]], [[1, 2, 3]], [[1], [2, 3]], [[1, 2], [], [3]], [[1, 2]], [[1, 2, 4]], [[1, 2, 3, 0]], [[0]], [[3, 2, 1]]]
     for ta, tb in itertools.product(range(len(EQ_CTS)), repeat=2):
@@ -803,6 +906,8 @@ def nontrivial(case):
         return len(case["data"]) >= 2
     if k in ("reader", "snap"):
         return len(case["data0"]) + len(case["data1"]) >= 1
+    if k == "snaplist":
+        return len(case["buf"]) >= 1
     if k == "eq":
         return len(case["ca"]) + len(case["cb"]) >= 1
     if k == "mime":
@@ -849,6 +954,15 @@ def shrink(case):
                 yield dict(c, seek=[case["seek"][0] - (1 if case["seek"][0] > 0 else -1), case["seek"][1]])
         if case["chunk"] > 1:
             yield dict(c, chunk=case["chunk"] - 1)
+    elif k == "snaplist":
+        for o in _shorter(case["ops"]):
+            if all(op[0] != "replace" for op in o):
+                yield dict(c, ops=o)
+        if all(op[0] != "replace" for op in case["ops"]):
+            for b in _shorter(case["buf"]):
+                yield dict(c, buf=b)
+        if case["via"] != "copy":
+            yield dict(c, via="copy")
     elif k == "eq":
         for f in ("ca", "cb"):
             for s in _shorter(case[f]):
@@ -888,6 +1002,10 @@ def distribution(cases):
             r["len_multiple_of_chunk"] += len(c["data0"]) % c["chunk"] == 0
             if c["seek"] is not None and c["seek"][1] == 0 and c["seek"][0] > len(c["data1"]):
                 r["start_past_eof"] += 1
+        elif k == "snaplist":
+            sl = d.setdefault("snaplist", {})
+            for key in ("src:" + c["src"], "via:" + c["via"]):
+                sl[key] = sl.get(key, 0) + 1
         elif k == "mime":
             d["mime"]["wf_ct" if wf_ct(c["ct"]) else "F16"] += 1
         elif k == "chunks":
